@@ -113,7 +113,7 @@ def unlift_option(t):
             return ("unreachable",)
     return t
 
-def check_ref(fx, rule, ident, ref, what, body=None, keep=(), inst=None, key=None, alt=(), unlift=False):
+def check_ref(fx, rule, ident, ref, what, body=None, keep=(), inst=None, key=None, alt=(), unlift=False, odd_tab=None):
     rep = fx.rep
     inst = inst or ident
     try:
@@ -124,6 +124,20 @@ def check_ref(fx, rule, ident, ref, what, body=None, keep=(), inst=None, key=Non
         rep.fail(rule, inst, "unsupported:" + ident, "cannot evaluate %s: %s" % (ident, u)); return False
     if t is None:
         rep.fail(rule, inst, "anchor-lost:" + ident, "%s not found (reason=anchor-lost)" % ident); return False
+    if odd_tab is not None and callable(ref):
+        # the odd kernel of this function may be evaluated in any of the accepted orders: take the one the code uses
+        for v_ in range(N_ODD_VARIANTS):
+            ODD_VARIANT[odd_tab] = v_
+            try:
+                r_ = ref(t)
+                cands = [r_] + [a_() if callable(a_) else a_ for a_ in alt]
+                if any(D.equivalent(t, fx.n(c_), leaf_eq_any) is None for c_ in cands):
+                    break
+            except RuntimeError:
+                pass
+        else:
+            ODD_VARIANT[odd_tab] = 0
+        alt = tuple(a_() if callable(a_) else a_ for a_ in alt)
     if callable(ref):
         ref = ref(t)
         if ref is None:
@@ -800,9 +814,19 @@ def kernels(fx):
 def horner_full(x, node):
     return horner_chain(x, node, 0, idioms.array_len(node))
 
+ODD_VARIANT = {}      # kernel table -> evaluation order of the odd kernel found in the code (chosen by check_ref, odd_tab=)
+N_ODD_VARIANTS = 3
 def k_sin(x, C): 
+    """the odd kernel x + x^3 H(x^2) in one of the evaluation orders accepted for it: the same polynomial, whose rounding error
+    is bounded from the order actually used (R43e expands whatever this returns)"""
     x2 = x * x
-    return x * (x2 * horner_full(x2, C) + 1.0)
+    h = horner_full(x2, C)
+    v = ODD_VARIANT.get(C, 0)
+    if v == 1:
+        return x + x * (x2 * h)
+    if v == 2:
+        return x + (x * x2) * h
+    return x * (x2 * h + 1.0)
 def k_cos(x, C):
     x2 = x * x
     return x2 * (x2 * horner_full(x2, C) + (-0.5)) + 1.0
@@ -935,7 +959,7 @@ def check_C16(ctx, rep):
         return IF(s.is_valid(), quadrant_ref(s, leaf_of), invalid)
     sin_tab = [lambda r: S(r), lambda r: C(r), lambda r: -S(r), lambda r: -C(r)]
     cos_tab = [lambda r: C(r), lambda r: -S(r), lambda r: -C(r), lambda r: S(r)]
-    check_ref(fx, "R41", "TwoFloat::sin", dispatch(sin_tab, nan), "invalid -> NaN; reduction by dd(pi/2) with threshold dd(pi/4); quadrants [S, C, -S, -C]")
+    check_ref(fx, "R41", "TwoFloat::sin", lambda t_: dispatch(sin_tab, nan), "invalid -> NaN; reduction by dd(pi/2) with threshold dd(pi/4); quadrants [S, C, -S, -C]", odd_tab=role["sin"])
     check_ref(fx, "R41", "TwoFloat::cos", dispatch(cos_tab, nan), "invalid -> NaN; quadrants [C, -S, -C, S]")
     # sin_cos: arm k equals (sin.arm k, cos.arm k)
     def sc_leaf(r, i):
@@ -980,8 +1004,8 @@ def check_C16(ctx, rep):
                 return RETV(T(r)) if i % 2 == 0 else IF(teq(T(r), 0.0), ANY_LEAF, RETV(-1.0 / T(r)))
             def leaf_guard_r(r, i):
                 return RETV(T(r)) if i % 2 == 0 else IF(teq(r, 0.0), ANY_LEAF, RETV(-1.0 / T(r)))
-            check_ref(fx, "R41", "TwoFloat::tan", IF(s.is_valid(), quadrant_ref(s, leaf_of), RETV(s)), "invalid -> self; quadrants [T, -1/T, T, -1/T]",
-                      alt=(IF(s.is_valid(), quadrant_ref(s, leaf_guard_T), RETV(s)), IF(s.is_valid(), quadrant_ref(s, leaf_guard_r), RETV(s))))
+            check_ref(fx, "R41", "TwoFloat::tan", lambda t_: IF(s.is_valid(), quadrant_ref(s, leaf_of), RETV(s)), "invalid -> self; quadrants [T, -1/T, T, -1/T]",
+                      alt=(lambda: IF(s.is_valid(), quadrant_ref(s, leaf_guard_T), RETV(s)), lambda: IF(s.is_valid(), quadrant_ref(s, leaf_guard_r), RETV(s))), odd_tab=ttabs[0])
             w = F.words_from_hex(ttabs[0][2])
             rep.check(abs(oracle.f64_of(w[0]) - 1.0 / 3) < 1e-6, "R41", "tan kernel leading coefficient", "tan-kernel-c0", "tan kernel's first coefficient is %r, expected about 1/3" % oracle.f64_of(w[0]), nontrivial=False)
     except vg.Unsupported as u:
@@ -1263,16 +1287,18 @@ def check_C17(ctx, rep):
             k = 4.0 * x + 0.25
             def signed(v):
                 return IF(s.is_sign_positive(), RETV(v), RETV(-v))
-            arms = IF(tcmp("le", k, 2.0), RETV(K(s)),
-                      IF(tcmp("lt", k, 3.0), signed(A12 + K((x - 0.5) / (1.0 + 0.5 * x))),
-                         IF(tcmp("lt", k, 5.0), signed(PI4v + K((x - 1.0) / (1.0 + x))),
-                            IF(tcmp("lt", k, 10.0), signed(A32 + K((x - 1.5) / (1.0 + 1.5 * x))),
-                               signed(PI2 - K(x.recip()))))))
-            ref = IF(s.is_valid(),
-                     IF(f64m("is_infinite", s.hi, "bool").t, IF(f64m("is_sign_positive", s.hi, "bool").t, RETV(PI2), RETV(-PI2)), arms),
-                     NAN_LEAF)
-            check_ref(fx, "R44", "TwoFloat::atan", ref,
-                      "k=4|x|+1/4 thresholds 2,3,5,10 <=> |x| = 7/16, 11/16, 19/16, 39/16; arm constants dd(atan 1/2), dd(pi/4), dd(atan 3/2), dd(pi/2); transform (x-c)/(1+c*x) with the same c; sign restored")
+            def atan_ref(t_):
+                arms = IF(tcmp("le", k, 2.0), RETV(K(s)),
+                          IF(tcmp("lt", k, 3.0), signed(A12 + K((x - 0.5) / (1.0 + 0.5 * x))),
+                             IF(tcmp("lt", k, 5.0), signed(PI4v + K((x - 1.0) / (1.0 + x))),
+                                IF(tcmp("lt", k, 10.0), signed(A32 + K((x - 1.5) / (1.0 + 1.5 * x))),
+                                   signed(PI2 - K(x.recip()))))))
+                return IF(s.is_valid(),
+                          IF(f64m("is_infinite", s.hi, "bool").t, IF(f64m("is_sign_positive", s.hi, "bool").t, RETV(PI2), RETV(-PI2)), arms),
+                          NAN_LEAF)
+            check_ref(fx, "R44", "TwoFloat::atan", atan_ref,
+                      "k=4|x|+1/4 thresholds 2,3,5,10 <=> |x| = 7/16, 11/16, 19/16, 39/16; arm constants dd(atan 1/2), dd(pi/4), dd(atan 3/2), dd(pi/2); transform (x-c)/(1+c*x) with the same c; sign restored",
+                      odd_tab=atan_tab)
             # reduced argument stays within the kernel interval on each arm (exact rationals)
             from fractions import Fraction as Fr
             worst = Fr(0)
@@ -1305,11 +1331,13 @@ def check_C17(ctx, rep):
         else:
             KA = lambda x: k_sin(x, tabs[0])
             av = s.abs()
-            big = PI2 - 2.0 * KA(((1.0 - s.abs()) / 2.0).sqrt())
-            ref = IF(s.is_valid(),
-                     IF(tcmp("gt", av, 1.0), NAN_LEAF, IF(tcmp("le", av, 0.5), RETV(KA(s)), IF(s.is_sign_positive(), RETV(big), RETV(-big)))),
-                     NAN_LEAF)
-            check_ref(fx, "R45", "TwoFloat::asin", ref, "invalid or |x|>1 -> NaN; |x|<=1/2 -> kernel; else pi/2 - 2*kernel(sqrt((1-|x|)/2)) with the sign restored")
+            def asin_ref(t_):
+                big = PI2 - 2.0 * KA(((1.0 - s.abs()) / 2.0).sqrt())
+                return IF(s.is_valid(),
+                          IF(tcmp("gt", av, 1.0), NAN_LEAF, IF(tcmp("le", av, 0.5), RETV(KA(s)), IF(s.is_sign_positive(), RETV(big), RETV(-big)))),
+                          NAN_LEAF)
+            check_ref(fx, "R45", "TwoFloat::asin", asin_ref, "invalid or |x|>1 -> NaN; |x|<=1/2 -> kernel; else pi/2 - 2*kernel(sqrt((1-|x|)/2)) with the sign restored",
+                      odd_tab=tabs[0])
             check_kernel_approx(fx, "asin", tabs[0], "asin")
             check_asin_total_error(fx, tabs[0])
     x = s.asin()
